@@ -17,7 +17,7 @@ ALL = [cg.BASIC, cg.COMPOUND, cg.ORTH, cg.FINAL, cg.SH, cg.DH]
 LEVELS = {
     'quick': [
         {'name': 'L1-N3-M2-1fault', 'N': 3, 'M': 2, 'faults': 1, 'budget_s': 90},
-        {'name': 'L2-N4-M1-1structural', 'N': 4, 'M': 1, 'faults': 1, 'fault_set': 'structural', 'positions': 1, 'budget_s': 120},
+        {'name': 'L2-N4-M1-1structural', 'N': 4, 'M': 1, 'faults': 1, 'fault_set': 'structural', 'positions': 2, 'budget_s': 120},
         {'name': 'L3-N3-M1-2faults', 'N': 3, 'M': 1, 'faults': 2, 'positions': 1, 'budget_s': 90},
     ],
     'thorough': [
@@ -28,7 +28,7 @@ LEVELS = {
 }
 FAULTS = ['none', 'dup_name', 'tr_from_final', 'tr_from_history', 'unknown_target', 'empty_target', 'history_under_orthogonal',
           'history_root', 'initial_grandchild', 'initial_sibling_of_parent', 'initial_unknown', 'initial_self',
-          'memory_self', 'memory_non_sibling', 'memory_unknown', 'memory_child_of_sibling',
+          'memory_self', 'memory_non_sibling', 'memory_unknown', 'memory_child_of_sibling', 'memory_unknown_beside_memoryless',
           'unknown_key_outer', 'unknown_key_statechart', 'unknown_key_state', 'unknown_key_transition',
           'unknown_key_contract', 'unknown_priority', 'unknown_type', 'both_states_and_parallel',
           'missing_state_name', 'missing_chart_name', 'missing_root']
@@ -92,8 +92,8 @@ def doc_from_chart(cm):
         if e:
             td['event'] = cg.EVENTS[e]
         td['guard'] = 'True'
+        td['priority'] = ['high', 5, 'low', -3][t % 4]
         if t % 3 == 0:
-            td['priority'] = ['high', 'low', 2][t % 3]
             td['contract'] = [{'before': 'True'}]
         nodes[s].setdefault('transitions', []).append(td)
     return {'statechart': {'name': 'doc', 'preamble': 'x = 0', 'root state': nodes[0]}}, nodes
@@ -151,6 +151,13 @@ def inject(fault, pos, doc, nodes, cm):
         if c is None:
             return False
         nodes[c[0]]['initial'] = 'nowhere' if c[1] is None else cm.names[c[1]]
+    elif fault == 'memory_unknown_beside_memoryless':
+        hs = [i for i in range(n) if cm.kind[i] >= cg.SH]
+        if len(hs) < 2:
+            return False
+        a, b = (hs[0], hs[-1]) if pos % 2 == 0 else (hs[-1], hs[0])
+        del nodes[a]['memory']                 # a history state without memory is valid ...
+        nodes[b]['memory'] = 'nowhere'         # ... and must not hide the faulty memory of another one
     elif fault.startswith('memory_'):
         hs = [i for i in range(n) if cm.kind[i] >= cg.SH]
         if fault == 'memory_self':
@@ -271,7 +278,7 @@ def harness(g, chart, level, canary=False):
     nf = level.get('faults', 1)
     applied = []
     doc, nodes = doc_from_chart(cm)
-    nfaults = 16 if level.get('fault_set') == 'structural' else len(FAULTS)   # FAULTS[:16] depend on the hierarchy
+    nfaults = 17 if level.get('fault_set') == 'structural' else len(FAULTS)   # FAULTS[:17] depend on the hierarchy
     f1 = g.choice('fault1', nfaults)
     if f1:
         p1 = g.choice('pos1', level.get('positions', 2))
